@@ -113,3 +113,10 @@ def register_all(reg):
     reg("C10", "netx", "model_checking", "explicit-state search of the real computations of every shipped algorithm over a virtual FIFO network with a value_selection / current_value monitor",
         "Every shipped algorithm (incl. gdba variants, A-DSA tick events, Max-Sum with default noise and damping) is run with default parameters on small instances with int / str / 3-valued domains, own costs and isolated variables; 2-valued pairs under all interleavings and random answers, the rest under 3 canonical schedules; every value_selection argument and every current_value after every step must be None or a domain member.",
         NETX_NOTE + " Handler exceptions end a path and are listed in the evidence notes (they are other properties' subject).", "DESIGN.md 3 C10")
+
+    reg("C20", "netx", "model_checking", "explicit-state search over operation sequences interleaved with all delivery orders on the real Directory / Discovery objects (virtual FIFO network, state caching)",
+        "Every sequence of <=5 (thorough up to 7) discovery operations of 2 (3) agents on 1-2 computations, interleaved with every delivery order of the discovery messages, is executed on the real Directory, DirectoryComputation, Discovery and DiscoveryComputation objects; at every quiescent state each agent's view of every item it is still subscribed to must equal the directory's and its callback events must fold to that view.",
+        NETX_NOTE + " A new host registers a computation only once the former host's messages reached the directory (no version numbers in the protocol); illegal calls are not in the alphabet.", "DESIGN.md 3 C20")
+    reg("C25", "netx", "model_checking", "explicit-state search of the real UCSReplication computations with real Discovery/Directory over a virtual FIFO network (all interleavings for small deployments, canonical schedules beyond; state caching)",
+        "For each small deployment (3-4 agents, 1-2 computations each, ample/tight capacities, routes, hosting costs, k=1..3) every agent's replicate(k) and all replication / discovery messages are explored in one process sharing class-level state; on every state the acceptance of a replica is checked against the capacity rule computed from the agent's own replica table, at quiescence termination, distinct non-owner hosts <= k, directory records and real holders are checked.",
+        NETX_NOTE + " UCSReplication sees a fake agent exposing name, agent_def and computations() only.", "DESIGN.md 3 C25")
